@@ -58,18 +58,23 @@ quiet_logging()
 _simmod.print = lambda *a, **k: None
 
 _IDLE = gconfig._GeckoIdleConfig()
+# the settings, read off the two shipped tables themselves (NOT the library's own member list, which the code under
+# check iterates - and could exhaust or shorten)
+SETTINGS = tuple(sorted({k for c in (gconfig._GeckoActiveConfig, gconfig._GeckoIdleConfig) for k in vars(c) if k.isupper()}))
+if len(SETTINGS) < 10:
+    raise RuntimeError(f"geckomc: only {len(SETTINGS)} settings found in the configuration tables")
 
 
 def reset_library():
     """Module-level mutable state back to import-time values."""
-    for m in gconfig.CONFIG_MEMBERS:
+    for m in SETTINGS:
         setattr(gconfig.GeckoConfig, m, getattr(_IDLE, m))
     gconfig.ConfigChange = None
     LOG.records.clear()
 
 
 def config_values():
-    return {m: getattr(gconfig.GeckoConfig, m) for m in gconfig.CONFIG_MEMBERS}
+    return {m: getattr(gconfig.GeckoConfig, m) for m in SETTINGS}
 
 
 # ---- snapshots ---------------------------------------------------------------------------
